@@ -317,7 +317,7 @@ theorem withdraw_factory {s s' : PmState} {env : PmEnv} {sender : Addr} {funds :
     (h : withdrawLiquidity s env sender funds pid = .ok (s', r)) :
     isFactoryToken pool.lpDenom = true := by
   unfold withdrawLiquidity at h
-  simp only [↓ok_bind, ↓ite_err_ok, ↓bind_ok, ↓err_bind_ok, ↓pure_bind', pure_ok, Prod.mk.injEq] at h
+  simp only [↓ok_bind, ↓ite_err_bind_ok, ↓bind_ok, ↓err_bind_ok, ↓pure_bind', pure_ok, Prod.mk.injEq] at h
   obtain ⟨pool', hp', -, amt, hpay, hfac, -⟩ := h
   rw [hp] at hp'; cases hp'
   simpa using hfac
@@ -329,12 +329,12 @@ theorem provide_multi_factory {s s' : PmState} {env : PmEnv} {sender : Addr} {fu
     (h : provideLiquidity s env sender funds ls ss recv pid u l = .ok (s', r)) :
     isFactoryToken pool.lpDenom = true := by
   unfold provideLiquidity at h
-  simp only [hagg, ↓ok_bind, ↓ite_err_ok, ↓bind_ok, ↓err_bind_ok, List.length_singleton, ↓reduceIte, pure_ok, getD?_ok',
+  simp only [hagg, ↓ok_bind, ↓ite_err_bind_ok, ↓bind_ok, ↓err_bind_ok, List.length_singleton, ↓reduceIte, pure_ok, getD?_ok',
     ↓pure_bind', Except.ok.injEq] at h
   obtain ⟨pool', hp', hst, d, hd, -, hall, h⟩ := h
   rw [hp] at hp'; cases hp'
   cases hd
-  simp only [hlen, ↓ite_err_ok, ↓reduceIte] at h
+  simp only [hlen, ↓ite_err_bind_ok, ↓reduceIte] at h
   obtain ⟨hfac, -⟩ := h
   simpa using hfac
 
@@ -345,11 +345,11 @@ theorem createPool_nodup {s s' : PmState} {env : PmEnv} {funds : List Coin} {den
   apply nodup_of_hasDuplicates
   cases pt with
   | cp =>
-    simp only [↓ok_bind, ↓ite_err_ok, ↓bind_ok, ↓err_bind_ok, ↓pure_bind', pure_ok, Prod.mk.injEq] at h
+    simp only [↓ok_bind, ↓ite_err_bind_ok, ↓bind_ok, ↓err_bind_ok, ↓pure_bind', pure_ok, Prod.mk.injEq] at h
     obtain ⟨-, -, -, tf, htf, ⟨⟩, hna, hdup, -⟩ := h
     simpa using hdup
   | stable amp =>
-    simp only [↓ok_bind, ↓ite_err_ok, ↓bind_ok, ↓err_bind_ok, ↓pure_bind', pure_ok, Prod.mk.injEq] at h
+    simp only [↓ok_bind, ↓ite_err_bind_ok, ↓bind_ok, ↓err_bind_ok, ↓pure_bind', pure_ok, Prod.mk.injEq] at h
     obtain ⟨-, -, -, tf, htf, ⟨⟩, hna, hdup, -⟩ := h
     simpa using hdup
 
@@ -389,7 +389,7 @@ theorem plTail_noPm {s s' : PmState} {env : PmEnv} {sender : Addr} {pool : PoolI
   clear hpa
   cases u with
   | none =>
-    simp only [↓ite_err_ok, ↓pure_bind'] at h
+    simp only [↓ite_err_bind_ok, ↓pure_bind'] at h
     obtain ⟨hv, h⟩ := h
     obtain ⟨as', has, h⟩ := bind_ok.mp h
     simp only [pure_ok, Prod.mk.injEq] at h
@@ -400,7 +400,7 @@ theorem plTail_noPm {s s' : PmState} {env : PmEnv} {sender : Addr} {pool : PoolI
     simp only [List.mem_singleton] at hm
     subst hm; trivial
   | some uu =>
-    simp only [↓ite_err_ok] at h
+    simp only [↓ite_err_bind_ok] at h
     obtain ⟨hauth, h⟩ := h
     have hfin : ∀ lockMsg, NoPm lockMsg →
         ∀ m ∈ msgs0 ++ [Msg.tfMint ⟨pool.lpDenom, shares⟩ env.self, lockMsg], NoPm m := by
@@ -431,7 +431,7 @@ theorem plTail_noPm {s s' : PmState} {env : PmEnv} {sender : Addr} {pool : PoolI
       | some pos =>
         obtain ⟨pid', pr⟩ := pos
         rw [hfm] at h
-        simp only [↓ite_err_ok, ↓pure_bind'] at h
+        simp only [↓ite_err_bind_ok, ↓pure_bind'] at h
         obtain ⟨hown, h⟩ := h
         obtain ⟨as', has, h⟩ := bind_ok.mp h
         simp only [pure_ok, Prod.mk.injEq] at h
